@@ -28,3 +28,5 @@ TRUSTED = ['mpsc_fifo_push/trypop, spsc_fifo_push/trypop: by contract here (line
 ASSUMPTIONS = ['SC; weak CAS modelled strong (A3)', 'exactly one receiver on bounded/unbounded/sp channels and one waiter per signal, one sender on sp channels (the API contract)',
                'termination of spin/retry loops is not proved', '64-bit position counters do not wrap (A6)',
                'end-to-end "every message received exactly once, no stranded peer" is the composition of these per-operation contracts with the queue contracts (C16-C18) and the park/wake contract (C01); the composition argument is in DESIGN.md and is not machine-checked']
+# obligation groups of other properties' specifications that this property also rests on (its anchors name those files); see DESIGN.md 11.2
+IMPORTS = [dict(prop='C01', groups=['maintenance', 'maintenance_migrating_unlock']), dict(prop='C15', groups=['mpsc_push', 'mpsc_trypop', 'spsc_push', 'spsc_trypop'])]
